@@ -18,7 +18,7 @@ use std::collections::HashMap;
 use std::time::Instant;
 
 #[derive(Clone, Debug, PartialEq, Eq, Hash)]
-enum V {
+pub enum V {
     Absent,
     B(Vec<u8>),
     /// explicit spelling of the party's static public key
@@ -50,7 +50,7 @@ impl V {
     }
 }
 #[derive(Clone, Debug, PartialEq, Eq, Hash)]
-struct Triple {
+pub struct Triple {
     fam: &'static str,
     r_idu: V,
     r_ids: V,
@@ -113,7 +113,7 @@ fn ctxv_of() -> Vec<V> {
     al::ctxvals_full().into_iter().map(|x| x.map_or(V::Absent, V::B)).collect()
 }
 
-fn triples(tier: Tier) -> Vec<Triple> {
+pub fn triples(tier: Tier) -> Vec<Triple> {
     let idv = idv_of(tier);
     let ctxv = ctxv_of();
     let cidv = if tier.thorough() { al::cids_full() } else { al::cids_core() };
@@ -266,7 +266,7 @@ fn product_triples() -> Vec<Triple> {
 
 const PW: &[u8] = b"correct horse";
 
-fn explore(api: &Api, ts: &[Triple], seed: u64, cx: &mut Cx) {
+pub fn explore(api: &Api, ts: &[Triple], seed: u64, cx: &mut Cx, mode: Mode) {
     let sp = api.spec;
     let npk = sp.npk();
     let mut t0 = Tape::seeded(seed, "c05/setup");
@@ -297,10 +297,12 @@ fn explore(api: &Api, ts: &[Triple], seed: u64, cx: &mut Cx) {
     };
     for tr in ts {
         cx.begin_case(tr.describe());
-        if !cx.state(tr) {
-            continue;
+        if mode == Mode::Own {
+            if !cx.state(tr) {
+                continue;
+            }
+            cx.path();
         }
-        cx.path();
         let cpk = match cpk_of.get(&tr.r_cid) {
             Some(k) => k.clone(),
             None => match reg(api, &tr.r_cid, None, None) {
@@ -325,7 +327,7 @@ fn explore(api: &Api, ts: &[Triple], seed: u64, cx: &mut Cx) {
                     files.insert(rk, f);
                 }
                 Err(e) => {
-                    cx.violate("registration/error", format!("registration with valid parameters fails: {}", e));
+                    honest_fail(cx, mode, "registration-fails", format!("registration with valid parameters fails: {}", e));
                     continue;
                 }
             }
@@ -342,7 +344,7 @@ fn explore(api: &Api, ts: &[Triple], seed: u64, cx: &mut Cx) {
                     if tr.fam.starts_with("over-limit") {
                         cx.outcome("rejected-over-limit");
                     } else {
-                        cx.violate("server-start/error", format!("server login start with valid parameters fails: {:?}", e));
+                        honest_fail(cx, mode, "server-start-fails", format!("server login start with valid parameters fails: {:?}", e));
                     }
                     continue;
                 }
@@ -365,13 +367,19 @@ fn explore(api: &Api, ts: &[Triple], seed: u64, cx: &mut Cx) {
             if v.is_empty() { v.push("over-limit-value") }
             v.join("+")
         };
+        if mode == Mode::Honest {
+            if !expect || !cx.state(tr) {
+                continue;
+            }
+            cx.path();
+        }
         cx.edges += 1;
         let r = api.login_finish(&Blob::n(&cst), PW, &Blob::n(&ke2), tr.c_ctx.resolve(&[]).as_deref(), tr.c_idu.resolve(&cpk).as_deref(), tr.c_ids.resolve(&spk).as_deref(), None);
         match (r, expect) {
             (Ok((fin, sk, _, _)), true) => match api.slogin_finish(&Blob::n(&sst), &Blob::n(&fin)) {
                 Ok(k) if k == sk => cx.outcome("accepted-matched"),
                 Ok(_) => cx.violate(&format!("key-mismatch/{}", tr.fam), "session keys differ in an accepted login".into()),
-                Err(e) => cx.violate(&format!("server-rejects-matched/{}", tr.fam), format!("server rejects the finalization of a matched login: {:?}", e)),
+                Err(e) => honest_fail(cx, mode, &format!("server-rejects-matched/{}", tr.fam), format!("server rejects the finalization of a matched login: {:?}", e)),
             },
             (Err(_), false) => cx.outcome("rejected-mismatch"),
             (Ok(_), false) => {
@@ -380,7 +388,7 @@ fn explore(api: &Api, ts: &[Triple], seed: u64, cx: &mut Cx) {
             }
             (Err(e), true) => {
                 cx.outcome("REJECTED-MATCHED");
-                cx.violate(&format!("rejects-matched/{}", tr.fam), format!("login with agreeing parameters fails: {:?}", e));
+                honest_fail(cx, mode, &format!("rejects-matched/{}", tr.fam), format!("login whose parties agree on the effective identities, context and credential id fails: {:?} ({})", e, tr.describe()));
             }
         }
     }
@@ -409,7 +417,7 @@ pub fn run(tier: Tier, seed: u64) -> i32 {
         }
     }
     let mut tot = Totals::default();
-    tot.merge(fw::run_items("C05", &items, |(a, _)| a.name().to_string(), |(api, c), cx| explore(api, c, seed, cx)));
+    tot.merge(fw::run_items("C05", &items, |(a, _)| a.name().to_string(), |(api, c), cx| explore(api, c, seed, cx, Mode::Own)));
     let mut product_n = 0;
     if tier.thorough() {
         let mut p = product_triples();
@@ -421,7 +429,7 @@ pub fn run(tier: Tier, seed: u64) -> i32 {
                 items.push((api, c.to_vec()));
             }
         }
-        tot.merge(fw::run_items("C05", &items, |(a, _)| a.name().to_string(), |(api, c), cx| explore(api, c, seed, cx)));
+        tot.merge(fw::run_items("C05", &items, |(a, _)| a.name().to_string(), |(api, c), cx| explore(api, c, seed, cx, Mode::Own)));
     }
     let rep = Report {
         property: "C05",
